@@ -11,6 +11,8 @@ routing of parsed sections into `las.sections` and the steering variables (`prov
 The file object is the list of its lines (`readline` semantics: split after every '\n', terminator kept) with a
 cursor; `seek(k)` to a section is `lines.drop first`.  Item values are kept as the raw text BEFORE `num()`.
 Line numbers in `RErr.headerError` are the 1-based numbers printed in the message ("Line N").
+Everything lives in `namespace Lasio.Rd` (generic names such as `stripBrackets`, `RItem`, `MCase` also exist in other
+model files).
 -/
 namespace Lasio.Rd
 
@@ -398,24 +400,29 @@ deriving Repr
 
 def RState.init : RState := ⟨Steer.init, initSections, [], [], false⟩
 
+/-- las.py:272-316: what happens to a parsed "Header items" section: steering update, routing, storing -/
+def finishItems (o : ReadOpts) (title : Str) (items : List RItem) (st : RState) : Except RErr RState :=
+  let s' := steer o title items st.steer
+  if title.length < 2 then .error .indexError
+  else match routeKey title (classifyVer s'.vers) with
+    | .error e => .error e
+    | .ok k =>
+      let plain := if k == kCurves then !isCurvesParser title (classifyVer st.steer.vers) && !items.isEmpty
+                   else st.curvesPlain
+      .ok { st with steer := s', sections := assign k (.items items) st.sections, curvesPlain := plain }
+
+/-- las.py:332-337: storing the text of a "Header (other)" section -/
+def finishOther (title : Str) (text : Str) (st : RState) : RState :=
+  { st with sections := assign (routeKeyOther title) (.text text) st.sections }
+
 /-- one iteration of the section loop (las.py:246-348) -/
 def processSection (o : ReadOpts) (lines : List Str) (w : Nat × Nat × Str) (st : RState) : Except RErr RState :=
-  let (first, last, title) := w
-  match sectionType title with
+  match sectionType w.2.2 with
   | .items =>
-    match parseItemsSection o (classifyVer st.steer.vers) (lines.drop first) first last with
+    match parseItemsSection o (classifyVer st.steer.vers) (lines.drop w.1) w.1 w.2.1 with
     | .error e => .error e
-    | .ok items =>
-      let s' := steer o title items st.steer
-      if title.length < 2 then .error .indexError
-      else match routeKey title (classifyVer s'.vers) with
-        | .error e => .error e
-        | .ok k =>
-          let plain := if k == kCurves then !isCurvesParser title (classifyVer st.steer.vers) && !items.isEmpty
-                       else st.curvesPlain
-          .ok { st with steer := s', sections := assign k (.items items) st.sections, curvesPlain := plain }
-  | .other =>
-    .ok { st with sections := assign (routeKeyOther title) (.text (readOther (lines.drop first) first last)) st.sections }
+    | .ok items => finishItems o w.2.2 items st
+  | .other => .ok (finishOther w.2.2 (readOther (lines.drop w.1) w.1 w.2.1) st)
   | .data => .ok { st with data := st.data ++ [w] }
   | .las3data => .ok { st with las3 := st.las3 ++ [w] }
 
@@ -434,19 +441,22 @@ deriving Repr
 
 def delimiters : List Str := ["SPACE".toList, "COMMA".toList, "TAB".toList]
 
+/-- after the section loop (las.py:350-…, 566-567) -/
+def finishRead (st : RState) : Except RErr RHeader :=
+  -- `define_line_splitter(provisional_delimiter)`
+  if !(match st.steer.dlm with | none => true | some d => delimiters.contains d) then .error .keyError
+  -- `self.index_initial = self.index.copy()`
+  else if st.curvesPlain then .error .attributeError
+  else .ok ⟨st.sections.filterMap (fun kv => kv.2.map fun v => (kv.1, v)), st.steer,
+            if st.data.isEmpty then st.las3 else st.data⟩
+
 def readLines (o : ReadOpts) (lines : List Str) : Except RErr RHeader :=
   match findSections lines with
   | [] => .error .noSections
   | secs =>
     match processSections o lines secs RState.init with
     | .error e => .error e
-    | .ok st =>
-      -- `define_line_splitter(provisional_delimiter)`
-      if !(match st.steer.dlm with | none => true | some d => delimiters.contains d) then .error .keyError
-      -- `self.index_initial = self.index.copy()`
-      else if st.curvesPlain then .error .attributeError
-      else .ok ⟨st.sections.filterMap (fun kv => kv.2.map fun v => (kv.1, v)), st.steer,
-                if st.data.isEmpty then st.las3 else st.data⟩
+    | .ok st => finishRead st
 
 /-- `lasio.read(text, ignore_data=True, ignore_header_errors=…, mnemonic_case=…)` for a text that `open_file`
 takes for LAS data (more than one line) -/
